@@ -127,6 +127,25 @@ def run(prop, tier):
             chans = [[(a if (i + c) % 2 == 0 else -a) if c < 2 else r.randint(-3, 3) for i in range(n)] for c in range(ch)]
         T = r.choice([50, 0, 40, 60, -10, 20, 33, 49.5, 50.25, -200, -201, -199.5, 90, 186, r.randint(-210, 200)])
         add(chans, w, T, r.choice(selectors))
+    # a dead (exactly silent) channel next to a loud one: the default is the MAXIMUM over channels
+    for w in (1, 2, 4):
+        a = {1: 100, 2: 1000, 4: 100000}[w]
+        for ch in (2, 3, 4):
+            for dead in range(ch):
+                for n in (1, 3, 8):
+                    chans = [[0] * n if c == dead else [(a if i % 2 == 0 else -a) for i in range(n)] for c in range(ch)]
+                    for uc in (None, "any", dead, (dead + 1) % ch, "mix"):
+                        add(chans, w, {1: 30, 2: 50, 4: 90}[w], uc)
+    # full-scale samples of the same sign on every channel: the per-sample mean must not wrap in the sample's own width
+    for w in (1, 2, 4):
+        hi = lim[w]
+        for ch in (2, 3, 4):
+            for vals in ([hi] * 4, [-hi - 1] * 4, [hi, -hi - 1, hi, -hi - 1], [hi - 1, hi, hi - 2, hi], [(3 * hi) // 4] * 3, [-(3 * hi) // 4] * 3):
+                chans = [list(vals) for _ in range(ch)]
+                top = {1: 42, 2: 90, 4: 186}[w]
+                for T in (top - 12, top - 3, 0):
+                    for uc in ("mix", "avg", None, 0, -1):
+                        add(chans, w, T, uc)
     # exact ties, and one LSB above / below, at even powers of ten: mean square = 10^(2j)  <=>  T = 20 j
     for j in (0, 1, 2, 3, 4):
         a = 10 ** j
